@@ -449,7 +449,8 @@ class Recognizer(IRecognizer):
         if recognized_types is None:
             raise RecognitionError(
                 ('Could not recognize for type {},'
-                 ' is it registered?').format(expected_type.__name__))
+                 ' is it registered?').format(
+                     getattr(expected_type, '__name__', expected_type)))
         logger.debug('Recognized types {} matching {}'.format(
             recognized_types, expected_type))
         return recognized_types, result
